@@ -21,6 +21,8 @@ pub struct HType {
     /// the type's new virtual function is public
     pub vpub: bool,
     pub fns: Vec<HFn>,
+    /// an ordinary field is declared before the #[base] fields
+    pub lead: bool,
 }
 
 #[derive(Clone, Debug, PartialEq, Eq, Hash)]
@@ -90,12 +92,23 @@ impl<'a> Model<'a> {
     }
     pub fn size(&self, i: usize) -> u64 {
         let t = &self.h.types[i];
-        (if self.own_ptr(i) { self.ps } else { 0 }) + t.bases.iter().map(|b| self.size(*b)).sum::<u64>() + self.ps
+        (if self.own_ptr(i) { self.ps } else { 0 }) + (if t.lead { self.ps } else { 0 }) + t.bases.iter().map(|b| self.size(*b)).sum::<u64>() + self.ps
+    }
+    /// offset of the vftable pointer the type's own virtual wrappers dispatch through
+    pub fn vptr_offset(&self, i: usize) -> u64 {
+        if self.own_ptr(i) {
+            0
+        } else {
+            match self.first_base(i) {
+                Some(b) => self.base_offset(i, 0) + self.vptr_offset(b),
+                None => 0,
+            }
+        }
     }
     /// offset of base field k of type i
     pub fn base_offset(&self, i: usize, k: usize) -> u64 {
         let t = &self.h.types[i];
-        (if self.own_ptr(i) { self.ps } else { 0 }) + t.bases[..k].iter().map(|b| self.size(*b)).sum::<u64>()
+        (if self.own_ptr(i) { self.ps } else { 0 }) + (if t.lead { self.ps } else { 0 }) + t.bases[..k].iter().map(|b| self.size(*b)).sum::<u64>()
     }
     /// every transitive base: (field path, type, offset)
     pub fn dfs(&self, i: usize) -> Vec<(Vec<String>, usize, u64)> {
@@ -134,7 +147,7 @@ impl<'a> Model<'a> {
             .vlist(i)
             .iter()
             .enumerate()
-            .map(|(slot, (n, _, _))| (n.clone(), Effect { target: CallTarget::Slot(0, slot as u64), receiver: Some(0), recv: Recv::Const }))
+            .map(|(slot, (n, _, _))| (n.clone(), Effect { target: CallTarget::Slot(self.vptr_offset(i), slot as u64), receiver: Some(0), recv: Recv::Const }))
             .collect();
         let mut cands = vec![];
         for (k, b) in t.bases.iter().enumerate() {
@@ -157,7 +170,7 @@ impl<'a> Model<'a> {
             if k > 0 {
                 for (slot, (n, _, public)) in self.vlist(*b).iter().enumerate() {
                     if *public {
-                        let e = Effect { target: CallTarget::Slot(0, slot as u64), receiver: Some(0), recv: Recv::Const };
+                        let e = Effect { target: CallTarget::Slot(self.vptr_offset(*b), slot as u64), receiver: Some(0), recv: Recv::Const };
                         cands.push(Candidate { name: n.clone(), field: bname(k), effect: shift(&e) });
                     }
                 }
@@ -233,6 +246,9 @@ pub fn module_of(h: &Hier) -> ModuleS {
                 .collect();
             ty.vft = Some(VftS { size: None, funcs });
         }
+        if t.lead {
+            ty.fields.push(FieldS::new(&format!("lead{i}"), MTy::b("u8").cptr()));
+        }
         for (k, b) in t.bases.iter().enumerate() {
             ty.fields.push(FieldS::new(&bname(k), MTy::user(&tname(*b))).based());
         }
@@ -287,9 +303,15 @@ pub fn shapes(n: usize) -> Vec<Hier> {
         for blocks in 0..(1u32 << n) {
             out.push(Hier {
                 types: (0..n)
-                    .map(|i| HType { bases: lists[i][d[i]].clone(), block: blocks >> i & 1 == 1, vpub: true, fns: vec![] })
+                    .map(|i| HType { bases: lists[i][d[i]].clone(), block: blocks >> i & 1 == 1, vpub: true, fns: vec![], lead: false })
                     .collect(),
             });
+            // the same shape with an ordinary field in front of the youngest type's bases
+            if n <= 3 && !lists[n - 1][d[n - 1]].is_empty() {
+                let mut h = out.last().unwrap().clone();
+                h.types[n - 1].lead = true;
+                out.push(h);
+            }
         }
     }
     out
